@@ -155,6 +155,9 @@ func CheckTokenTotalSupply(g *GenesisConfig) error {
 		} else if token.TotalSupply.Cmp(total) != 0 {
 			return errors.Errorf("invalid token total balance for %v Expected %v but got %v", token, total, token.TotalSupply)
 		}
+		if token.MaxSupply == nil || token.TotalSupply.Cmp(token.MaxSupply) > 0 {
+			return errors.Errorf("invalid token %v Total supply %v exceeds max supply %v", token, token.TotalSupply, token.MaxSupply)
+		}
 	}
 
 	for zts := range given {
